@@ -9,7 +9,7 @@ from harness.props import c04, c11
 
 ID = "C09"
 ENTRY = "searcharray.solr.edismax(frame, q, qf, mm, tie, q_op, similarity)"
-LEVEL = "other"
+LEVEL = "proof"
 WITH_PHRASES = False
 RULE = ("frames with 1..3 SearchArray columns (same or different tokenizers: a stop-word dropping tokenizer makes the "
         "per-field term counts differ, which selects the field-centric path), queries of 1..6 terms incl. unknown terms, "
